@@ -11,6 +11,11 @@ A case is {"k": 1, "tsn": [client_tsn, server_tsn], "ops": [...], "heal": bool};
   [7, ms]                      advance the virtual clock by ms milliseconds
   [8, ep, chan, threshold]     set bufferedAmountLowThreshold
   [13, dst, k]                 deliver a long-delayed duplicate of the k-th datagram ever sent towards dst
+  [15, kind, id]               create a negotiated channel with stream id `id` on BOTH endpoints (no DCEP)
+  [16, ep, chan, thr, n, size] flow control as in examples/datachannel-filexfer: bufferedAmountLowThreshold = thr and a
+                               'bufferedamountlow' handler that sends two more messages per event (n messages in all)
+  [12]                         fault-free interlude with timers (everything outstanding is delivered and acknowledged)
+  a channel index < 0 counts from the newest channel of that endpoint (-1 = newest)
   [9]                          fault-free interlude: deliver everything in flight FIFO (no timers)
 The run ends with an optional healing phase (fault-free delivery, timers when idle).
 Returns a JSON-able observation dict used by the oracles of C01, C02, C06, C13, C17.
@@ -57,7 +62,8 @@ async def _run(case):
     closed_ops = []
     probes = []
     healed_mid = []
-    flags = {"reset_overtook_data": False, "reset_hit_reused_id": False, "reconfig_discarded": False}
+    flags = {"reset_overtook_data": False, "reset_hit_reused_id": False, "reconfig_discarded": False,
+             "reset_overtook_own_data": False}
     freed = {0: set(), 1: set()}
     ranks = {0: {}, 1: {}}
     try:
@@ -82,6 +88,13 @@ async def _run(case):
                                 last = sim.eps[dst]._last_received_tsn
                                 if last is not None and S.uint32_gt(prm.last_tsn, last):
                                     flags["reset_overtook_data"] = True
+                                    # ... and DATA of the very streams being reset is among what has been overtaken
+                                    snd_ep = sim.eps[1 - dst]
+                                    have = set(sim.eps[dst]._sack_misordered)
+                                    for c in list(snd_ep._sent_queue) + list(snd_ep._outbound_queue):
+                                        if c.stream_id in prm.streams and S.uint32_gt(c.tsn, last) and c.tsn not in have \
+                                                and not S.uint32_gt(c.tsn, prm.last_tsn):
+                                            flags["reset_overtook_own_data"] = True
                                 for sid in prm.streams:
                                     cur = sim.eps[dst]._data_channels.get(sid)
                                     if sid in freed[dst] and cur is not None and cur.readyState != "closing":
@@ -91,8 +104,15 @@ async def _run(case):
 
         sim.pre_deliver = note_reset
 
+        def chan_index(ep, i):
+            return i if i >= 0 else len(sim.channels[ep]) + i
+
         async def do(op):
             t = op[0]
+            if t in (1, 6, 8, 16) and op[2] < 0:
+                op = op[:2] + [chan_index(op[1], op[2])] + op[3:]
+                if op[2] < 0:
+                    return
             if t == 0:
                 kind = CHANNEL_KINDS[op[2] % len(CHANNEL_KINDS)]
                 label = LABELS[op[3] % len(LABELS)] if len(op) > 3 else "c"
@@ -149,6 +169,35 @@ async def _run(case):
                         sim.channels[op[1]][op[2]].bufferedAmountLowThreshold = op[3]
                     except ValueError:
                         pass
+            elif t == 15:
+                kind = CHANNEL_KINDS[op[1] % len(CHANNEL_KINDS)]
+                # an application re-uses an id only after the 'close' events of its previous owner on both ends
+                busy = any(op[2] in sim.eps[e]._data_channels for e in (0, 1))
+                for ep_ in (() if busy else (0, 1)):
+                    idx = sim.create_channel(ep_, label="n%d" % op[2], ordered=kind[0], maxRetransmits=kind[1],
+                                             maxPacketLifeTime=kind[2], negotiated=True, id=op[2])
+                    if idx is not None:
+                        chan_meta[ep_].append({"kind": op[1] % len(CHANNEL_KINDS), "label": "n%d" % op[2], "protocol": "",
+                                               "local": True, "negotiated": True})
+                await sim.drain()
+            elif t == 16:
+                if op[2] < len(sim.channels[op[1]]):
+                    ch = sim.channels[op[1]][op[2]]
+                    try:
+                        ch.bufferedAmountLowThreshold = op[3]
+                    except ValueError:
+                        pass
+                    budget = [op[4]]
+
+                    def refill(ep=op[1], ci=op[2], ch=ch, size=op[5], budget=budget):
+                        for _ in range(2):
+                            if budget[0] <= 0 or ch.readyState != "open":
+                                break
+                            budget[0] -= 1
+                            counter = len(sim.sends) + 1
+                            if not sim.send(ep, ci, _payload(counter + 1000 * ep, 0, size)):
+                                break
+                    ch.on("bufferedamountlow", refill)
             elif t == 13:
                 # a long-delayed duplicate: deliver a copy of the k-th datagram ever sent towards op[1]
                 log = sim.sent_log[1 - op[1]]
@@ -215,7 +264,7 @@ async def _run(case):
                 chans[ep].append({
                     "id": ch.id, "label": ch.label, "protocol": ch.protocol, "ordered": ch.ordered,
                     "maxRetransmits": ch.maxRetransmits, "maxPacketLifeTime": ch.maxPacketLifeTime,
-                    "state": ch.readyState, "buffered": ch.bufferedAmount,
+                    "state": ch.readyState, "buffered": ch.bufferedAmount, "negotiated": bool(ch.negotiated),
                     "registered": ch.id is not None and sim.eps[ep]._data_channels.get(ch.id) is ch,
                 })
 
@@ -255,6 +304,7 @@ async def _run(case):
             "probes": probes,
             "healed_mid": healed_mid,
             "reset_overtook_data": flags["reset_overtook_data"],
+            "reset_overtook_own_data": flags["reset_overtook_own_data"],
             "reset_hit_reused_id": flags["reset_hit_reused_id"],
             "reconfig_discarded": flags["reconfig_discarded"],
             "ranks": [[ranks[ep].get(i, []) for i in range(len(sim.channels[ep]))] for ep in (0, 1)],
@@ -328,17 +378,77 @@ def gen_scenario(rng, reliable_only=False, pr=False, origins=None, nops=None, bi
     return case
 
 
+def gen_recycle(rng, origins=None, stale=False):
+    """a stream id used by several channels one after the other (closed by either side, re-created as a DCEP-opened or
+    a negotiated channel), traffic with loss / duplication / reordering on every incarnation; now and then the
+    sender refills from a 'bufferedamountlow' handler"""
+    origins = origins or [7, 0xFFFFFFF0, 0x7FFFFFF0, 0, 0xFFFFFFFF]
+    tsn = [rng.choice(origins), rng.choice(origins)]
+    negotiated = rng.random() < 0.5
+    kind = rng.choice([0, 0, 0, 1])
+    creator = rng.randrange(2)
+    sid = rng.choice([0, 1, 2, 3, 7, 20])
+    ops = []
+    rounds = rng.randrange(2, 4)
+    sizes = [1, 10, 100, 1200, 2400, 5000]
+    if stale:
+        # a second channel that stays open and carries bulk data: messages sent on the short-lived channel right
+        # before its close() wait behind it in the data-channel queue while the stream reset goes out at once
+        bulk_ep = rng.randrange(2)
+        ops += [[0, bulk_ep, 0, 7], [9]]
+    for r in range(rounds):
+        ops.append([15, kind, sid] if negotiated else [0, creator, kind, rng.randrange(40)])
+        ops.append([9])
+        if rng.random() < 0.35:
+            # a burst larger than the congestion window, refilled from the event handler
+            ep = rng.randrange(2)
+            ops.append([16, ep, -1, rng.choice([1, 1000, 4000]), rng.randrange(1, 8), rng.choice([100, 1200, 3000])])
+            for _ in range(rng.randrange(2, 6)):
+                ops.append([1, ep, -1, 0, rng.choice([1200, 3000, 6000])])
+        for _ in range(rng.randrange(2, 14)):
+            k = rng.random()
+            if k < 0.45:
+                ops.append([1, rng.randrange(2), -1, rng.randrange(2), rng.choice(sizes)])
+            elif k < 0.57:
+                ops.append([3, rng.randrange(2), rng.randrange(4)])
+            elif k < 0.65:
+                ops.append([4, rng.randrange(2), rng.randrange(4)])
+            elif k < 0.92:
+                ops.append([2, rng.randrange(2), rng.choice([0, 0, 1, 1, 2, 3])])
+            else:
+                ops.append([5, rng.randrange(2)])
+        if r < rounds - 1 and stale:
+            ops.append([12])
+            ops.append([1, bulk_ep, 0, 0, rng.choice([30000, 60000])])
+            for _ in range(rng.randrange(1, 4)):
+                ops.append([1, bulk_ep, -1, rng.randrange(2), rng.choice([1, 10, 100])])
+            ops.append([6, rng.choice([bulk_ep, bulk_ep, 1 - bulk_ep]), -1])
+            for _ in range(rng.randrange(8, 16)):
+                ops += [[2, 1, 0], [2, 0, 0]]
+        elif r < rounds - 1:
+            ops.append([12])
+            ops.append([6, rng.randrange(2), -1])
+            ops.append([12])
+    return {"k": 1, "tsn": tsn, "ops": ops, "heal": True, "recycle": True}
+
+
 # ------------------------------------------------------------------ shared oracle helpers
 def pair_channels(obs):
-    """Map (creator ep, stream id) -> (sender-side index on ep, receiver-side index on 1-ep)."""
+    """Map (ep, stream id) -> (index on ep, index on 1-ep).  Stream ids are recycled: the n-th channel that used an
+    id on one side is paired with the n-th on the other side (only when both sides saw equally many)."""
     out = []
+    by_id = {0: {}, 1: {}}
     for ep in (0, 1):
         for i, ch in enumerate(obs["channels"][ep]):
-            if ch["id"] is None:
+            if ch["id"] is not None:
+                by_id[ep].setdefault(ch["id"], []).append(i)
+    for ep in (0, 1):
+        for sid, mine in by_id[ep].items():
+            theirs = by_id[1 - ep].get(sid, [])
+            if len(mine) != len(theirs):
                 continue
-            for j, rc in enumerate(obs["channels"][1 - ep]):
-                if rc["id"] == ch["id"]:
-                    out.append((ep, i, j, ch))
+            for i, j in zip(mine, theirs):
+                out.append((ep, i, j, obs["channels"][ep][i]))
     return out
 
 
